@@ -14,13 +14,14 @@ implementation's observation.
 import ast
 import os
 import subprocess
+import sys
 from fractions import Fraction as Fr
 
 from harness.common import extract, fakeproc
 from harness.common.extract import NotRecognised
 
 PROP = "C15"
-DRIVER_MODULES = ["PsutilModel.Model.C15Gen", "PsutilModel.Model.C15R2", "PsutilModel.Spec.C15"]
+DRIVER_MODULES = ["PsutilModel.Model.C15Gen", "PsutilModel.Model.C15R2", "PsutilModel.Model.C15R3", "PsutilModel.Spec.C15"]
 NEEDS_EXT = True
 TRUSTED = [
     "C15 environment: system calls cost zero virtual time (only _sleep and a blocking waitpid advance the clock); an interrupted waitpid returns at once; doubles are modelled by exact rationals (a logged float sleep must be the double nearest to the model's rational)",
@@ -42,6 +43,7 @@ ASSUMPTIONS = [
 
 FINDING_EINTR = "C15-eintr-deadline"
 FINDING_POPEN_NEG = "C15-popen-negative-cached"
+FINDING_EINTR_NEVER = "C15-eintr-never-existed"
 FUEL = 200                      # model loop bound = harness bound on sleeps per wait call
 
 # ------------------------------------------------------------------------------ translator
@@ -58,21 +60,35 @@ def _frac_of_const(node):
 
 
 def _wait_pid_facts(tree):
-    fn = extract.find_def(tree, "wait_pid")
+    """facts about wait_pid's polling schedule. Every piece is extracted on its own: a piece that cannot be
+    read is recorded under "<piece>_err" and only the facts that need it are skipped."""
     out = {}
+    try:
+        fn = extract.find_def(tree, "wait_pid")
+    except Exception as e:  # noqa: BLE001
+        for k in ("i0", "sched", "check"):
+            out[k + "_err"] = "wait_pid not found: %s" % e
+        return out
     # interval = 0.0001 (top level of wait_pid)
-    for st in fn.body:
-        if isinstance(st, ast.Assign) and len(st.targets) == 1 and extract.dotted(st.targets[0]) == "interval":
-            out["i0"] = _frac_of_const(st.value)
-            break
-    else:
-        raise NotRecognised("`interval = <const>` not found in wait_pid")
+    try:
+        for st in fn.body:
+            if isinstance(st, ast.Assign) and len(st.targets) == 1 and extract.dotted(st.targets[0]) == "interval":
+                out["i0"] = _frac_of_const(st.value)
+                break
+        else:
+            raise NotRecognised("`interval = <const>` not found in wait_pid")
+    except NotRecognised as e:
+        out["i0_err"] = str(e)
     sl = None
     for st in fn.body:
         if isinstance(st, ast.FunctionDef) and st.name == "sleep":
             sl = st
     if sl is None:
-        raise NotRecognised("nested sleep() not found")
+        out["sched_err"] = "nested sleep() not found"
+        # no nested sleep(): there is no deadline check in front of a sleep at all
+        out["checkBeforeSleep"] = False
+        out["check_err"] = "nested sleep() not found"
+        return out
     idx_check = idx_sleep = None
     cmp_ge = None
     for i, st in enumerate(sl.body):
@@ -86,7 +102,7 @@ def _wait_pid_facts(tree):
             if len(cmps) != 1 or any(isinstance(x, ast.Call) and extract.dotted(x.func).split(".")[-1] in ("_sleep", "sleep")
                                      for x in ast.walk(st)):
                 # e.g. a check that itself sleeps: the constants below are still extracted, the two
-                # facts about the check are skipped (correspondence alone covers them)
+                # facts about the check are skipped (a skipped fact counts as a broken obligation)
                 out["check_err"] = "deadline check of sleep() has an unknown shape: `%s`" % extract.unparse(st.test)
                 continue
             c = cmps[0]
@@ -103,41 +119,58 @@ def _wait_pid_facts(tree):
                 elif isinstance(op, ast.Lt):
                     cmp_ge = False
             if cmp_ge is None:
-                out["check_err"] = "deadline comparison is %s" % extract.unparse(c)
+                out["ge_err"] = "deadline comparison is %s" % extract.unparse(c)
         if isinstance(st, ast.Expr) and isinstance(st.value, ast.Call) and \
                 extract.dotted(st.value.func).split(".")[-1] in ("_sleep", "sleep"):
             idx_sleep = i
         if isinstance(st, ast.Return):
-            c = st.value
-            if not (isinstance(c, ast.Call) and extract.dotted(c.func) in ("_min", "min") and len(c.args) == 2):
-                raise NotRecognised("sleep() returns %s" % extract.unparse(st))
-            a, b = c.args
-            if not (isinstance(a, ast.BinOp) and isinstance(a.op, ast.Mult)):
-                raise NotRecognised("first argument of _min is %s" % extract.unparse(a))
-            if extract.dotted(a.left) == "interval":
-                fac = _frac_of_const(a.right)
-            elif extract.dotted(a.right) == "interval":
-                fac = _frac_of_const(a.left)
-            else:
-                raise NotRecognised("first argument of _min is %s" % extract.unparse(a))
-            if fac.denominator != 1:
-                raise NotRecognised("non-integer back-off factor %s" % fac)
-            out["factor"] = int(fac)
-            out["cap"] = _frac_of_const(b)
-    if idx_sleep is None or "cap" not in out:
-        raise NotRecognised("shape of sleep() not recognised")
+            try:
+                c = st.value
+                if not (isinstance(c, ast.Call) and extract.dotted(c.func) in ("_min", "min") and len(c.args) == 2):
+                    raise NotRecognised("sleep() returns %s" % extract.unparse(st))
+                a, b = c.args
+                if not (isinstance(a, ast.BinOp) and isinstance(a.op, ast.Mult)):
+                    raise NotRecognised("first argument of _min is %s" % extract.unparse(a))
+                if extract.dotted(a.left) == "interval":
+                    fac = _frac_of_const(a.right)
+                elif extract.dotted(a.right) == "interval":
+                    fac = _frac_of_const(a.left)
+                else:
+                    raise NotRecognised("first argument of _min is %s" % extract.unparse(a))
+                if fac.denominator != 1:
+                    raise NotRecognised("non-integer back-off factor %s" % fac)
+                out["factor"] = int(fac)
+                out["cap"] = _frac_of_const(b)
+            except NotRecognised as e:
+                out["sched_err"] = str(e)
+    if "cap" not in out and "sched_err" not in out:
+        out["sched_err"] = "sleep() has no `return _min(interval * k, cap)`"
     if idx_check is None and "check_err" not in out:
-        out["check_err"] = "no TimeoutExpired check found in sleep()"
-    if "check_err" not in out:
-        out["checkBeforeSleep"] = idx_check < idx_sleep
-        out["deadlineGe"] = cmp_ge
+        # no TimeoutExpired check in sleep() at all: nothing is checked before sleeping
+        out["checkBeforeSleep"] = False
+        out["ge_err"] = "no TimeoutExpired check found in sleep()"
+    elif "check_err" not in out:
+        if idx_sleep is None:
+            out["check_err"] = "sleep() does not call _sleep"
+        else:
+            out["checkBeforeSleep"] = idx_check < idx_sleep
+            if cmp_ge is not None:
+                out["deadlineGe"] = cmp_ge
     return out
 
 
+def _piece(d, key, *errs):
+    """value of one extracted piece, or NotRecognised with the reason that piece (alone) could not be read"""
+    if key in d:
+        return d[key]
+    for e in errs:
+        if e in d:
+            raise NotRecognised(d[e])
+    raise NotRecognised("%s not extracted" % key)
+
+
 def _check_fact(d, key):
-    if "check_err" in d:
-        raise NotRecognised(d["check_err"])
-    return d[key]
+    return _piece(d, key, "check_err", "ge_err")
 
 
 def _body(fn):
@@ -158,65 +191,237 @@ def _norm(node):
     return extract.unparse(node).replace("(", "").replace(")", "").replace(" ", "")
 
 
+def _safe_pred(test, names, builtins=None):
+    """compile a test expression that mentions only `names` (and constants / comparisons / boolean operators) into
+    a Python predicate; None when it uses anything else"""
+    ok = (ast.Compare, ast.BoolOp, ast.UnaryOp, ast.Name, ast.Constant, ast.And, ast.Or, ast.Not, ast.USub, ast.UAdd,
+          ast.Load, ast.Eq, ast.NotEq, ast.Lt, ast.LtE, ast.Gt, ast.GtE, ast.Is, ast.IsNot, ast.BinOp, ast.Add, ast.Sub,
+          ast.Call, ast.expr_context)
+    allowed = set(names) | set(builtins or {})
+    for n in ast.walk(test):
+        if isinstance(n, ast.Name) and n.id not in allowed:
+            return None
+        if isinstance(n, ast.Call) and not (isinstance(n.func, ast.Name) and n.func.id in (builtins or {})):
+            return None
+        if not isinstance(n, ok):
+            return None
+    code = compile(ast.Expression(body=test), "<test>", "eval")
+
+    def pred(**kw):
+        return bool(eval(code, {"__builtins__": dict(builtins or {})}, kw))  # noqa: S307 — whitelisted AST only
+    return pred
+
+
+NEG_PIDS = [-2**31, -4001, -2, -1]
+POS_PIDS = [1, 2, 4001, 2**31]
+
+
+def _pid_test_facts(tree):
+    """which pids the FIRST statement of wait_pid raises ValueError for: the test is evaluated on sample pids.
+    Total: anything that is not such a test means `nothing is refused`."""
+    out = {"zero": False, "neg": False, "pos": False, "first": False, "shape": "no pid test"}
+    try:
+        b = _body(extract.find_def(tree, "wait_pid"))
+    except Exception as e:  # noqa: BLE001
+        out["shape"] = "wait_pid not found: %s" % e
+        return out
+    tests = [(i, st) for i, st in enumerate(b) if _raises(st, "ValueError") and "pid" in extract.unparse(st.test)]
+    if not tests:
+        return out
+    i, st = tests[0]
+    out["shape"] = extract.unparse(st.test)
+    out["first"] = i == 0
+    f = _safe_pred(st.test, ["pid"])
+    if f is None or i != 0:
+        return out
+    try:
+        out["zero"] = f(pid=0)
+        out["neg"] = all(f(pid=x) for x in NEG_PIDS)
+        out["pos"] = any(f(pid=x) for x in POS_PIDS)
+    except Exception as e:  # noqa: BLE001
+        out["shape"] += " (evaluation failed: %s)" % type(e).__name__
+        out["zero"] = out["neg"] = out["pos"] = False
+    return out
+
+
 def _pid_check_fact(tree):
-    """wait_pid: the first statement is `if pid <= 0: raise ValueError`"""
-    b = _body(extract.find_def(tree, "wait_pid"))
-    if b and _raises(b[0], "ValueError"):
-        t = _norm(b[0].test)
-        if t in ("pid<=0", "0>=pid", "pid<1", "1>pid"):
+    """wait_pid: the first statement is `if pid <= 0: raise ValueError` (or a test that refuses the same pids)"""
+    d = _pid_test_facts(tree)
+    return bool(d["first"] and d["zero"] and d["neg"] and not d["pos"])
+
+
+W_CONSTS = {"os.WNOHANG": os.WNOHANG, "os.WUNTRACED": os.WUNTRACED, "os.WCONTINUED": os.WCONTINUED,
+            "WNOHANG": os.WNOHANG, "WUNTRACED": os.WUNTRACED, "WCONTINUED": os.WCONTINUED}
+FLAGS_UNKNOWN = 255             # "an expression the translator cannot evaluate": fails cfg_waitpid_flags
+
+
+def _flags_facts(tree):
+    """second argument of the `os.waitpid(pid, …)` call of wait_pid, with and without a timeout: the straight-line
+    statements of wait_pid that assign `flags` are executed symbolically. Total (FLAGS_UNKNOWN when not evaluable)."""
+    out = {"timeout": FLAGS_UNKNOWN, "blocking": FLAGS_UNKNOWN}
+    try:
+        fn = extract.find_def(tree, "wait_pid")
+    except Exception:  # noqa: BLE001
+        return out
+    calls = [n for n in ast.walk(fn) if isinstance(n, ast.Call) and extract.dotted(n.func) in ("os.waitpid", "_waitpid")
+             and len(n.args) == 2]
+    if len(calls) != 1:
+        return out
+    arg = calls[0].args[1]
+
+    def is_tmo_test(t):
+        src = extract.unparse(t).replace("(", "").replace(")", "")
+        if src == "timeout is not None":
             return True
-        raise NotRecognised("first test of wait_pid is `%s`" % extract.unparse(b[0].test))
-    if any(_raises(st, "ValueError") and "pid" in extract.unparse(st.test) for st in b):
-        raise NotRecognised("a pid test exists in wait_pid but is not its first statement")
-    return False
+        if src == "timeout is None":
+            return False
+        return None
+
+    def ev(e, env, given):
+        if isinstance(e, ast.Constant) and isinstance(e.value, int) and not isinstance(e.value, bool):
+            return e.value
+        if isinstance(e, (ast.Attribute, ast.Name)):
+            d = extract.dotted(e)
+            if d in W_CONSTS:
+                return W_CONSTS[d]
+            if d in env:
+                return env[d]
+            raise NotRecognised(d)
+        if isinstance(e, ast.BinOp) and isinstance(e.op, (ast.BitOr, ast.Add)):
+            l, r = ev(e.left, env, given), ev(e.right, env, given)
+            return (l | r) if isinstance(e.op, ast.BitOr) else (l + r)
+        if isinstance(e, ast.IfExp):
+            t = is_tmo_test(e.test)
+            if t is None:
+                raise NotRecognised(extract.unparse(e.test))
+            return ev(e.body if t == given else e.orelse, env, given)
+        raise NotRecognised(extract.unparse(e))
+
+    def run(stmts, env, given):
+        for st in stmts:
+            if isinstance(st, ast.Assign) and len(st.targets) == 1 and extract.dotted(st.targets[0]) == "flags":
+                env["flags"] = ev(st.value, env, given)
+            elif isinstance(st, ast.AugAssign) and extract.dotted(st.target) == "flags":
+                if not isinstance(st.op, (ast.BitOr, ast.Add)):
+                    raise NotRecognised(extract.unparse(st))
+                v = ev(st.value, env, given)
+                env["flags"] = (env["flags"] | v) if isinstance(st.op, ast.BitOr) else (env["flags"] + v)
+            elif isinstance(st, ast.If):
+                t = is_tmo_test(st.test)
+                if t is None:
+                    if any(isinstance(n, (ast.Assign, ast.AugAssign)) and "flags" in extract.unparse(n) for n in ast.walk(st)):
+                        raise NotRecognised("flags assigned under `%s`" % extract.unparse(st.test))
+                    continue
+                run(st.body if t == given else st.orelse, env, given)
+            elif isinstance(st, (ast.While, ast.For, ast.Try)):
+                if any(isinstance(n, (ast.Assign, ast.AugAssign)) and extract.dotted(getattr(n, "target", None) or n.targets[0]) == "flags"
+                       for n in ast.walk(st) if isinstance(n, (ast.Assign, ast.AugAssign))):
+                    raise NotRecognised("flags assigned inside a loop")
+        return env
+    for key, given in (("timeout", True), ("blocking", False)):
+        try:
+            env = run(_body(fn), {}, given)
+            v = ev(arg, env, given)
+            if isinstance(v, int) and 0 <= v < FLAGS_UNKNOWN:
+                out[key] = v
+        except Exception:  # noqa: BLE001
+            pass
+    return out
+
+
+def _check_gone_order(tree):
+    """check_gone (nested in wait_procs): do `proc.returncode = …` and `gone.add(proc)` come before `callback(proc)`?
+    Total: a statement that is missing counts as `not before`."""
+    out = {"rc": False, "gone": False}
+    try:
+        fn = extract.find_def(tree, "wait_procs")
+        cg = [st for st in fn.body if isinstance(st, ast.FunctionDef) and st.name == "check_gone"][0]
+    except Exception:  # noqa: BLE001
+        return out
+    pos = {}
+    for n in ast.walk(cg):
+        at = (getattr(n, "lineno", 0), getattr(n, "col_offset", 0))
+        if isinstance(n, ast.Assign) and any(extract.dotted(t).endswith(".returncode") for t in n.targets):
+            pos.setdefault("rc", at)
+        if isinstance(n, ast.Call) and extract.dotted(n.func) == "gone.add":
+            pos.setdefault("gone", at)
+        if isinstance(n, ast.Call) and extract.dotted(n.func) == "callback":
+            pos["cb"] = min(pos.get("cb", at), at)
+    if "cb" not in pos:
+        # no callback call at all: nothing can be seen too early, but then `callback exactly once` is gone too
+        return out
+    out["rc"] = "rc" in pos and pos["rc"] < pos["cb"]
+    out["gone"] = "gone" in pos and pos["gone"] < pos["cb"]
+    return out
 
 
 def _cb_check_fact(tree):
-    """wait_procs: `if callback is not None and not callable(callback): raise TypeError` before the first loop"""
-    fn = extract.find_def(tree, "wait_procs")
+    """wait_procs: `if callback is not None and not callable(callback): raise TypeError` before the first loop (the
+    test is evaluated on samples: None and a function pass, 42 and "x" are refused). Total."""
+    try:
+        fn = extract.find_def(tree, "wait_procs")
+    except Exception:  # noqa: BLE001
+        return False
     for st in _body(fn):
         if isinstance(st, (ast.While, ast.For)):
             break
         if _raises(st, "TypeError"):
-            t = _norm(st.test)
-            if t == "callbackisnotNoneandnotcallablecallback":
-                return True
-            raise NotRecognised("callback test is `%s`" % extract.unparse(st.test))
-    if "callable" in extract.unparse(fn):
-        raise NotRecognised("a callable() test exists in wait_procs but not in front of the loops")
+            f = _safe_pred(st.test, ["callback"], {"callable": callable})
+            if f is None:
+                return False
+            try:
+                return (not f(callback=None)) and (not f(callback=len)) and f(callback=42) and f(callback="x")
+            except Exception:  # noqa: BLE001
+                return False
     return False
+
+
+def _timeout_test_ok(test):
+    """does this test refuse exactly the negative timeouts (None, 0 and positive numbers pass)? evaluated on samples"""
+    f = _safe_pred(test, ["timeout"])
+    if f is None:
+        return False
+    try:
+        return not any(f(timeout=t) for t in (None, 0, 0.0, 1, 2.5, Fr(1, 1000))) and \
+            all(f(timeout=t) for t in (-1, -0.001, -5, Fr(-1, 1000)))
+    except Exception:  # noqa: BLE001
+        return False
 
 
 def _popen_facts(tree):
     """Popen.wait: [validation?] ; if self.__subproc.returncode is not None: return it ;
-       ret = super().wait(timeout) ; self.__subproc.returncode = ret ; return ret"""
-    fn = extract.find_def(tree, "wait", cls="Popen")
-    b = _body(fn)
+       ret = super().wait(timeout) ; self.__subproc.returncode = ret ; return ret.
+       Three INDEPENDENT, total facts (a shape that is not recognised gives False for that fact only)."""
     out = {"validateFirst": False, "rcFirst": False, "stores": False}
-    i = 0
-    if i < len(b) and _raises(b[i], "ValueError"):
-        if _norm(b[i].test) != "timeoutisnotNoneandnottimeout>=0":
-            raise NotRecognised("Popen.wait validation test is `%s`" % extract.unparse(b[i].test))
-        out["validateFirst"] = True
-        i += 1
-    if i < len(b) and isinstance(b[i], ast.If) and not b[i].orelse:
-        if _norm(b[i].test) != "self.__subproc.returncodeisnotNone" or len(b[i].body) != 1 or \
-                extract.unparse(b[i].body[0]) != "return self.__subproc.returncode":
-            raise NotRecognised("Popen.wait early return is `%s`" % extract.unparse(b[i]))
-        out["rcFirst"] = True
-        i += 1
-    rest = [extract.unparse(x) for x in b[i:]]
-    if rest == ["ret = super().wait(timeout)", "self.__subproc.returncode = ret", "return ret"]:
-        out["stores"] = True
-    elif rest in (["ret = super().wait(timeout)", "return ret"], ["return super().wait(timeout)"]):
-        out["stores"] = False
-    else:
-        raise NotRecognised("tail of Popen.wait is %r" % (rest,))
+    try:
+        b = _body(extract.find_def(tree, "wait", cls="Popen"))
+    except Exception:  # noqa: BLE001
+        return out
+    src = [extract.unparse(x) for x in b]
+    first_rc = next((i for i, x in enumerate(src) if "returncode" in x), len(b))
+    first_wait = next((i for i, x in enumerate(src) if "super().wait(" in x or ".wait(" in x), len(b))
+    # validation: a ValueError test that refuses exactly the negative timeouts, before returncode is looked at
+    for i, st in enumerate(b[:min(first_rc, first_wait)]):
+        if _raises(st, "ValueError") and _timeout_test_ok(st.test):
+            out["validateFirst"] = True
+    # early return from the stored returncode, before the wait
+    for st in b[:first_wait]:
+        if isinstance(st, ast.If) and not st.orelse and _norm(st.test) == "self.__subproc.returncodeisnotNone" \
+                and len(st.body) == 1 and extract.unparse(st.body[0]) == "return self.__subproc.returncode":
+            out["rcFirst"] = True
+    # the store: straight-line `ret = super().wait(timeout)` ; `self.__subproc.returncode = ret` ; `return ret`
+    tail = src[first_wait:]
+    out["stores"] = tail == ["ret = super().wait(timeout)", "self.__subproc.returncode = ret", "return ret"]
     return out
 
 
 def _validate_fact(tree):
-    fn = extract.find_def(tree, "wait", cls="Process")
+    """Process.wait: a ValueError test that refuses exactly the negative timeouts precedes the `_exitcode` cache and
+    the platform wait. Total."""
+    try:
+        fn = extract.find_def(tree, "wait", cls="Process")
+    except Exception:  # noqa: BLE001
+        return False
     first_use = None
     for i, st in enumerate(fn.body):
         src = extract.unparse(st)
@@ -224,15 +429,8 @@ def _validate_fact(tree):
             first_use = i
             break
     if first_use is None:
-        raise NotRecognised("Process.wait body not recognised")
-    for st in fn.body[:first_use]:
-        if isinstance(st, ast.If) and any(isinstance(x, ast.Raise) and "ValueError" in extract.unparse(x)
-                                          for x in ast.walk(st)):
-            t = extract.unparse(st.test).replace("(", "").replace(")", "")
-            if t == "timeout is not None and not timeout >= 0":
-                return True
-            raise NotRecognised("validation test is `%s`" % t)
-    return False
+        return False
+    return any(_raises(st, "ValueError") and _timeout_test_ok(st.test) for st in fn.body[:first_use])
 
 
 def _slice_fact(tree):
@@ -262,7 +460,7 @@ def _loops_fact(tree):
     fors = [n for st in top for n in ast.walk(st) if isinstance(n, (ast.For, ast.comprehension))]
     whiles = [st for st in top if isinstance(st, ast.While)]
     if len(whiles) != 1 or not fors:
-        raise NotRecognised("wait_procs: expected one top-level while loop and at least one for loop")
+        return False                # not the shape the obligation speaks about
     wh = whiles[0]
 
     def refresh(st):
@@ -294,7 +492,7 @@ def _alive_set_fact(tree):
             if t == "gone":
                 gone = v
     if alive is None or gone is None:
-        raise NotRecognised("wait_procs: `alive = …` / `gone = …` not found in front of the loops")
+        return False
     return alive == ("set(procs)", True) and gone == "set()"
 
 
@@ -308,15 +506,15 @@ def facts(snap, F):
             d["wp"] = _wait_pid_facts(posix)
         return d["wp"]
 
-    F.try_add("interval0Num", "Nat", lambda: extract.lean_nat(wp()["i0"].numerator),
+    F.try_add("interval0Num", "Nat", lambda: extract.lean_nat(_piece(wp(), "i0", "i0_err").numerator),
               "wait_pid: `interval = 0.0001` (numerator of the decimal literal)")
-    F.try_add("interval0Den", "Nat", lambda: extract.lean_nat(wp()["i0"].denominator),
+    F.try_add("interval0Den", "Nat", lambda: extract.lean_nat(_piece(wp(), "i0", "i0_err").denominator),
               "wait_pid: `interval = 0.0001` (denominator)")
-    F.try_add("factor", "Nat", lambda: extract.lean_nat(wp()["factor"]),
+    F.try_add("factor", "Nat", lambda: extract.lean_nat(_piece(wp(), "factor", "sched_err")),
               "sleep(): `interval * 2`")
-    F.try_add("capNum", "Nat", lambda: extract.lean_nat(wp()["cap"].numerator),
+    F.try_add("capNum", "Nat", lambda: extract.lean_nat(_piece(wp(), "cap", "sched_err").numerator),
               "sleep(): `_min(interval * 2, 0.04)` (numerator)")
-    F.try_add("capDen", "Nat", lambda: extract.lean_nat(wp()["cap"].denominator),
+    F.try_add("capDen", "Nat", lambda: extract.lean_nat(_piece(wp(), "cap", "sched_err").denominator),
               "sleep(): `_min(interval * 2, 0.04)` (denominator)")
     F.try_add("checkBeforeSleep", "Bool", lambda: extract.lean_bool(_check_fact(wp(), "checkBeforeSleep")),
               "sleep(): the TimeoutExpired check precedes `_sleep(interval)`")
@@ -346,6 +544,21 @@ def facts(snap, F):
               "wait_procs: `while alive:`, every `for proc in alive`, each pass ends with `alive = alive - gone`")
     F.try_add("aliveIsSet", "Bool", lambda: extract.lean_bool(_alive_set_fact(init)),
               "wait_procs: `gone = set()`, `alive = set(procs)` after the timeout validation, in front of the loops")
+    # third round: each fact from its own extractor, every extractor total
+    F.try_add("pidRejectsZero", "Bool", lambda: extract.lean_bool(_pid_test_facts(posix)["zero"]),
+              "wait_pid: its first statement raises ValueError for pid 0 (test evaluated on sample pids)")
+    F.try_add("pidRejectsNeg", "Bool", lambda: extract.lean_bool(_pid_test_facts(posix)["neg"]),
+              "wait_pid: its first statement raises ValueError for every negative sample pid (-1 = any child for waitpid)")
+    F.try_add("pidRejectsPos", "Bool", lambda: extract.lean_bool(_pid_test_facts(posix)["pos"]),
+              "wait_pid: its first statement raises ValueError for some positive sample pid")
+    F.try_add("flagsTimeout", "Nat", lambda: extract.lean_nat(_flags_facts(posix)["timeout"]),
+              "wait_pid: value of the flags passed to os.waitpid when a timeout is given (WNOHANG=1, WUNTRACED=2, WCONTINUED=8; 255 = not evaluable)")
+    F.try_add("flagsBlocking", "Nat", lambda: extract.lean_nat(_flags_facts(posix)["blocking"]),
+              "wait_pid: value of the flags passed to os.waitpid without a timeout")
+    F.try_add("rcBeforeCb", "Bool", lambda: extract.lean_bool(_check_gone_order(init)["rc"]),
+              "check_gone: `proc.returncode = returncode` precedes `callback(proc)`")
+    F.try_add("goneBeforeCb", "Bool", lambda: extract.lean_bool(_check_gone_order(init)["gone"]),
+              "check_gone: `gone.add(proc)` precedes `callback(proc)`")
 
 
 # ------------------------------------------------------------------------------ simulated kernel
@@ -414,7 +627,16 @@ class World:
         self.procs[pid] = {"kind": env["kind"], "status": env.get("status", 0),
                            "exitAt": None if env.get("exitAt") is None else Fr(*env["exitAt"]),
                            "eintr": list(env.get("eintr", [])), "eintr_tail": bool(env.get("eintrTail", False)),
-                           "nwait": 0, "reaped": False}
+                           "nwait": 0, "reaped": False,
+                           # a stop / continue of the (living) child: reported by waitpid ONLY under WUNTRACED / WCONTINUED
+                           "stopAt": None if env.get("stopAt") is None else Fr(*env["stopAt"]),
+                           "contAt": None if env.get("contAt") is None else Fr(*env["contAt"]),
+                           "stop_reported": False, "cont_reported": False}
+        wc = env.get("wasChild")
+        if wc:
+            # a child of the caller whose exit status SOMEBODY ELSE collected before the call (another waitpid
+            # caller, subprocess.poll(), SIGCHLD ignored): to wait_pid it is a PID that never existed
+            self.procs[pid].update(kind="child", status=wc["status"], exitAt=Fr(*wc["exitAt"]), reaped=True)
 
     def ended(self, p):
         return p["exitAt"] is not None and p["exitAt"] <= self.now
@@ -432,8 +654,14 @@ class World:
         self.now += to_frac(x)
         self.sync_procfs()
 
+    KNOWN_FLAGS = os.WNOHANG | os.WUNTRACED | os.WCONTINUED
+
     def waitpid(self, pid, flags):
         self.tick()
+        if flags & ~self.KNOWN_FLAGS:
+            raise OSError(22, "Invalid argument (waitpid flags %r)" % flags)
+        if pid <= 0:
+            return self.waitpid_any(flags)
         p = self.procs.get(pid)
         if p is None:
             raise ChildProcessError(10, "No child processes")
@@ -445,21 +673,69 @@ class World:
             raise InterruptedError(4, "Interrupted system call")
         if p["kind"] != "child" or p["reaped"]:
             raise ChildProcessError(10, "No child processes")
+        if self.ended(p):
+            p["reaped"] = self.terminal(p["status"])
+            self.last_poll = (self.now, False)
+            if not flags & os.WNOHANG:
+                self.sync_procfs()
+            return (pid, p["status"])
+        # still alive: state changes other than termination, handed out only to a caller that asked for them
+        word = self.pending_report(p, flags, self.now)
+        if word is not None:
+            self.last_poll = (self.now, True)
+            return (pid, word)
         if flags & os.WNOHANG:
-            if self.ended(p):
-                p["reaped"] = self.terminal(p["status"])
-                self.last_poll = (self.now, False)
-                return (pid, p["status"])
             self.last_poll = (self.now, True)
             return (0, 0)
-        if flags != 0:
-            raise OSError(22, "unexpected waitpid flags %r" % flags)
-        if p["exitAt"] is None:
+        # blocking: until the next reportable event
+        events = []
+        if p["exitAt"] is not None:
+            events.append((p["exitAt"], 0))
+        if flags & os.WUNTRACED and p["stopAt"] is not None and not p["stop_reported"]:
+            events.append((max(p["stopAt"], self.now), 1))
+        if flags & os.WCONTINUED and p["contAt"] is not None and not p["cont_reported"]:
+            events.append((max(p["contAt"], self.now), 2))
+        if not events:
             raise Diverge("hang")
-        if p["exitAt"] > self.now:
-            self.now = p["exitAt"]
+        at, what = min(events)
+        if at > self.now:
+            self.now = at
             self.sync_procfs()
+        if what == 0:
+            p["reaped"] = self.terminal(p["status"])
+            self.sync_procfs()
+            return (pid, p["status"])
+        return (pid, self.pending_report(p, flags, self.now))
+
+    @staticmethod
+    def pending_report(p, flags, now):
+        if flags & os.WUNTRACED and p["stopAt"] is not None and p["stopAt"] <= now and not p["stop_reported"]:
+            p["stop_reported"] = True
+            return 0x7f | (19 << 8)             # WIFSTOPPED, SIGSTOP
+        if flags & os.WCONTINUED and p["contAt"] is not None and p["contAt"] <= now and not p["cont_reported"]:
+            p["cont_reported"] = True
+            return 0xffff                       # WIFCONTINUED
+        return None
+
+    def waitpid_any(self, flags):
+        """waitpid(0 / -1 / -pgid): ANY child of the caller (wait_pid must never get here)"""
+        kids = [(pid, p) for pid, p in sorted(self.procs.items()) if p["kind"] == "child" and not p["reaped"]]
+        if not kids:
+            raise ChildProcessError(10, "No child processes")
+        done = [(p["exitAt"], pid, p) for pid, p in kids if self.ended(p)]
+        if not done:
+            if flags & os.WNOHANG:
+                return (0, 0)
+            will = [(p["exitAt"], pid, p) for pid, p in kids if p["exitAt"] is not None]
+            if not will:
+                raise Diverge("hang")
+            at, pid, p = min(will, key=lambda x: (x[0], x[1]))
+            self.now = at
+            self.sync_procfs()
+        else:
+            at, pid, p = min(done, key=lambda x: (x[0], x[1]))
         p["reaped"] = self.terminal(p["status"])
+        self.sync_procfs()
         return (pid, p["status"])
 
     @staticmethod
@@ -493,6 +769,7 @@ class _ModProxy:
 STAT_TMPL = "%d (vproc) S 1 %d %d 0 -1 4194304 0 0 0 0 0 0 0 0 20 0 1 0 %d 1000000 100 " \
             "18446744073709551615 0 0 0 0 0 0 0 0 0 0 0 0 17 0 0 0 0 0 0 0 0 0 0 0 0 0 0\n"
 PIDS = list(range(4001, 4009))
+ANY_CHILD_PID = 4001
 
 
 class Impl:
@@ -623,8 +900,8 @@ class Impl:
         self.new_world(Fr(*case["start"]))
         w = self.world
         pid = case["pid"]
-        if pid > 0:
-            w.add(pid, case["env"])
+        # a pid <= 0 names no process: the environment describes a child the caller has (waitpid(-1) would reap it)
+        w.add(pid if pid > 0 else ANY_CHILD_PID, case["env"])
         tmo = None if case["timeout"] is None else Fr(*case["timeout"])
         out = self.outcome(lambda: self.px.wait_pid(pid, tmo))
         return {"out": out, "ret": jrat(w.now), "sleeps": [jrat(s) for s in w.sleeps],
@@ -781,11 +1058,28 @@ class Impl:
         for i, o in enumerate(lst):
             if not isinstance(o, list):
                 pos_of.setdefault(id(o), i)      # first position at which this very object stands
-        cblog, cbpos = [], []
+        cblog, cbpos, cbseen = [], [], []
 
         def on_gone(pr):
             cblog.append(pr.pid)
             cbpos.append(pos_of.get(id(pr), -1))
+            # what the callback can see of its argument NOW: the `returncode` instance attribute, and whether the
+            # object already is in check_gone's `gone` set (read from the calling frame; None = not found)
+            d = object.__getattribute__(pr, "__dict__")
+            if "returncode" in d:
+                rc = d["returncode"]
+                ok = rc is None or (isinstance(rc, int) and not isinstance(rc, bool))
+                rcj = {"v": None if (rc is None or not ok) else int(rc)}
+            else:
+                rcj = None
+            in_gone = None
+            try:
+                g = sys._getframe(1).f_locals.get("gone")
+                if isinstance(g, (set, frozenset, list, tuple)):
+                    in_gone = any(x is pr for x in g)
+            except Exception:  # noqa: BLE001
+                pass
+            cbseen.append([pr.pid, rcj, in_gone])
         cb = on_gone if case["hasCb"] else None
         if case.get("cb") == "bad":
             cb = 42                     # neither None nor callable
@@ -843,7 +1137,7 @@ class Impl:
             rc = stubs[pid].returncode
             subs.append([pid, {"v": None if rc is None else int(rc)}])
         return {"kind": "ok", "gone": [o.pid for o in gone], "alive": [o.pid for o in alive],
-                "returncodes": rcs, "cbLog": cblog, "ret": jrat(w.now),
+                "returncodes": rcs, "cbLog": cblog, "cbSeen": cbseen, "ret": jrat(w.now),
                 "sleeps": [jrat(s) for s in w.sleeps], "calls": calls, "flat": flat,
                 "gone_pos": [pos_of.get(id(o), -1) for o in gone], "alive_pos": [pos_of.get(id(o), -1) for o in alive],
                 "cb_pos": cbpos, "waited_pos": sorted({pos_of.get(i, -1) for i in w.waited_ids}),
@@ -1001,14 +1295,43 @@ def gen_wait_case(rng):
     pid = rng.choice(PIDS)
     if rng.random() < 0.01:
         pid = 0
-    return {"op": "wait", "env": jenv(kind, status, exit_at, eintr), "pid": pid,
+    env = jenv(kind, status, exit_at, eintr)
+    fam = {"timeout": tfam, "kind": kind, "status": sfam, "place": pfam, "eintr": efam}
+    r = rng.random()
+    if r < 0.025:
+        # (third round) a pid that names no single process: waitpid(-1) = ANY child, waitpid(-g) = a process group.
+        # The caller HAS a child (the environment): a wait_pid that lets the pid through would steal its status.
+        pid = rng.choice([-1, -1, -1, -2, -ANY_CHILD_PID, -2**31])
+        if kind != "child" or exit_at is None:
+            st, sfam = gen_status(rng)
+            env = jenv("child", st, start - rng.choice([Fr(0), Fr(1)]) if rng.random() < 0.7 else start + Fr(1, 1000), [])
+        fam = dict(fam, kind="pid-negative", status=sfam)
+    elif r < 0.15 and kind == "child":
+        # the child is stopped (and maybe continued) while alive: waitpid reports that ONLY under WUNTRACED /
+        # WCONTINUED, which wait_pid does not pass — the events must stay invisible
+        lo = start
+        hi = exit_at if (exit_at is not None and exit_at > start) else start + Fr(1, 10)
+        if hi > lo:
+            stop = lo + (hi - lo) * Fr(rng.randrange(0, 900), 1000)
+            env["stopAt"] = jrat(stop)
+            if rng.random() < 0.5:
+                env["contAt"] = jrat(stop + (hi - stop) * Fr(rng.randrange(1, 999), 1000))
+            fam = dict(fam, stop="stopped" + ("+continued" if "contAt" in env else ""))
+    elif r < 0.19:
+        # a child whose status somebody else collected before the call (second waiter, subprocess.poll(), SIGCHLD
+        # ignored): waitpid says ECHILD, the PID is gone — for wait_pid a PID that never existed
+        st, _ = gen_status(rng)
+        env = jenv("never", 0, None, eintr)
+        env["wasChild"] = {"status": st, "exitAt": jrat(start - rng.choice([Fr(0), Fr(1, 1000), Fr(3)]))}
+        fam = dict(fam, kind="reaped-elsewhere", place="never-existed", status="-")
+    return {"op": "wait", "env": env, "pid": pid,
             "timeout": None if timeout is None else jrat(timeout), "start": jrat(start), "fuel": FUEL,
-            "fam": {"timeout": tfam, "kind": kind, "status": sfam, "place": pfam, "eintr": efam}}
+            "fam": fam}
 
 
 def gen_pwait_case(rng):
     c = gen_wait_case(rng)
-    while c["pid"] == 0:
+    while c["pid"] <= 0:
         c = gen_wait_case(rng)
     start = Fr(*c["start"])
     if rng.random() < 0.05:
@@ -1048,7 +1371,7 @@ def gen_pwait_case(rng):
 def gen_popen_case(rng):
     """calls of psutil.Popen.wait on one object; `ext` = subprocess's own poll() runs just before the call"""
     c = gen_wait_case(rng)
-    while c["pid"] == 0:
+    while c["pid"] <= 0 or c["env"].get("wasChild"):
         c = gen_wait_case(rng)
     start = Fr(*c["start"])
     if rng.random() < 0.7 and c["env"]["kind"] != "child":
@@ -1222,6 +1545,26 @@ CORPUS = [
     {"op": "pwait", "env": jenv("nonchild", 0, None, []), "pid": 0, "fuel": FUEL,
      "calls": [{"timeout": None, "at": [0, 1]}, {"timeout": [1, 100], "at": [1, 1]}, {"timeout": [-1, 1], "at": [1, 1]}],
      "fam": {"timeout": "none", "kind": "pid0", "status": "-", "place": "never", "eintr": "none"}},
+    # (third round) wait_pid(-1): the caller has a dead child; nothing may be waited for, ValueError at once
+    {"op": "wait", "env": jenv("child", 3 << 8, Fr(0), []), "pid": -1, "timeout": None,
+     "start": [1, 1], "fuel": FUEL, "fam": {"timeout": "none", "kind": "pid-negative", "status": "exit", "place": "already", "eintr": "none"}},
+    {"op": "wait", "env": jenv("child", 9, Fr(0), []), "pid": -1, "timeout": [1, 100],
+     "start": [1, 1], "fuel": FUEL, "fam": {"timeout": "round", "kind": "pid-negative", "status": "signal", "place": "already", "eintr": "none"}},
+    # witness of C15-eintr-never-existed (Lean: neverEintrEnv): never existed, first waitpid interrupted -> one sleep
+    {"op": "wait", "env": jenv("never", 0, None, [True]), "pid": 4007, "timeout": None,
+     "start": [0, 1], "fuel": FUEL, "fam": {"timeout": "none", "kind": "never", "status": "-", "place": "never-existed", "eintr": "first"}},
+    # a child stopped at 1 ms, continued at 2 ms, exit(0) at 5 ms; timeout 10 ms: the stop must stay invisible
+    {"op": "wait", "env": dict(jenv("child", 0, Fr(5, 1000), []), stopAt=[1, 1000], contAt=[2, 1000]), "pid": 4002,
+     "timeout": [1, 100], "start": [0, 1], "fuel": FUEL,
+     "fam": {"timeout": "round", "kind": "child", "status": "exit", "place": "random", "eintr": "none", "stop": "stopped+continued"}},
+    # … and a child stopped for good, no timeout given: the blocking waitpid must not come back with the stop
+    {"op": "wait", "env": dict(jenv("child", 15, Fr(1, 2), []), stopAt=[1, 10]), "pid": 4003,
+     "timeout": None, "start": [0, 1], "fuel": FUEL,
+     "fam": {"timeout": "none", "kind": "child", "status": "signal", "place": "random", "eintr": "none", "stop": "stopped"}},
+    # a child somebody else reaped before the call
+    {"op": "wait", "env": dict(jenv("never", 0, None, []), wasChild={"status": 0, "exitAt": [0, 1]}), "pid": 4004,
+     "timeout": [1, 2], "start": [1, 1], "fuel": FUEL,
+     "fam": {"timeout": "round", "kind": "reaped-elsewhere", "status": "-", "place": "never-existed", "eintr": "none"}},
     # wait_procs with a callback that is not callable
     {"op": "wprocs", "procs": [{"pid": 4001, "env": jenv("child", 0, Fr(0), [])}], "list": [[4001, 0]],
      "timeout": [1, 10], "start": [0, 1], "hasCb": True, "cb": "bad", "fuel": FUEL, "fam": {"timeout": "round", "n": 1, "cb": "bad"}},
@@ -1281,6 +1624,12 @@ def same_wprocs(ob, m):
         return False
     if ob["cbLog"] != m["cbLog"] or ob["ret"] != m["ret"] or ob["sleeps"] != m["sleeps"]:
         return False
+    # what each callback invocation saw (returncode attribute; membership in `gone` when it could be read)
+    ms = m.get("cbSeen", [])
+    if [[p, rc] for p, rc, _ in ob["cbSeen"]] != [[p, rc] for p, rc, _ in ms]:
+        return False
+    if any(g is not None and bool(g) != bool(mg) for (_, _, g), (_, _, mg) in zip(ob["cbSeen"], ms)):
+        return False
     if len(ob["calls"]) != len(m["calls"]):
         return False
     for (p1, t1), (p2, t2) in zip(ob["calls"], m["calls"]):
@@ -1317,7 +1666,9 @@ def wprocs_line(case, ob):
         line["cb"] = case["cb"]
     if ob["kind"] == "ok":
         line["obs"] = {"gone": ob["gone"], "alive": ob["alive"], "returncodes": ob["returncodes"],
-                       "cbLog": ob["cbLog"], "ret": ob["ret"]}
+                       "cbLog": ob["cbLog"], "ret": ob["ret"],
+                       # (third round) what each callback invocation saw; inGone unknown -> not judged (sent as true)
+                       "cbSeen": [[p, rc, True if g is None else bool(g)] for p, rc, g in ob["cbSeen"]]}
     return line
 
 
@@ -1414,6 +1765,16 @@ def judge_single(res, inp, env, timeout, ob, m, sp):
         if fid:
             res.known_seen[fid] = res.known_seen.get(fid, 0) + 1
         res.disagree("spec", inp, ob, m, sp, note="implementation violates Spec clauses %s" % iv, finding=fid)
+        if not fid:
+            return 1
+    full = [c for c in (sp.get("impl_full") or []) if c not in (iv or [])]
+    if full:
+        # a clause that fails only at FULL strength over the stated quantifier (EINTR on any waitpid call)
+        fid = FINDING_EINTR_NEVER if (full == ["neverExistedAtOnce"] and env.get("kind") == "never" and has_eintr(env)) else None
+        if fid:
+            res.known_seen[fid] = res.known_seen.get(fid, 0) + 1
+        res.disagree("spec", inp, ob, m, sp, note="implementation violates Spec clauses %s (full strength: EINTR on any call)" % full,
+                     finding=fid)
         if not fid:
             return 1
     if sp["model_violations"]:
@@ -1650,6 +2011,8 @@ def features(case, ob):
                 f.append("popen:wait stored a returncode")
             elif o["out"].get("kind") == "none":
                 f.append("popen:wait returned None (returncode stays unset)")
+    if fam.get("stop"):
+        f.append(case["op"] + ":child " + fam["stop"] + " while alive (invisible without WUNTRACED/WCONTINUED)")
     f.append(case["op"] + ":kind=" + fam["kind"])
     f.append(case["op"] + ":timeout=" + fam["timeout"])
     f.append(case["op"] + ":place=" + fam["place"])
@@ -1668,7 +2031,7 @@ def nontrivial(case, ob):
         return ob.get("kind") == "ok" and (len(ob["calls"]) > 1 or bool(ob["sleeps"]))
     obs = [ob] if case["op"] in ("wait", "waitc") else ob
     return any(o["sleeps"] or o["out"]["kind"] == "timeout" for o in obs) or has_eintr(case["env"]) \
-        or len(obs) > 1 or case["pid"] in (0, "self")
+        or len(obs) > 1 or case["pid"] == "self" or case["pid"] <= 0 or bool(case["env"].get("stopAt"))
 
 
 def correspond(ctx, res, sweep=True):
@@ -1703,7 +2066,7 @@ def correspond(ctx, res, sweep=True):
         costed = []
         for i in range(ctx.n(400, 20000)):
             c = gen_wait_case(ctx.rng)
-            while c["pid"] == 0:
+            while c["pid"] <= 0:
                 c = gen_wait_case(ctx.rng)
             costed.append(dict(c, op="waitc", cost_seed=ctx.rng.randrange(1 << 30)))
         for a in range(0, len(costed), CH):
@@ -1875,6 +2238,17 @@ def check_finding(ctx, fnd):
             r = _Res()
             evaluate(ctx, impl, [dict(fnd["witness"]["case"], fam={})], r, "finding")
             if any(d.get("finding") == FINDING_POPEN_NEG for d in r.disagreements):
+                return "reproduces"
+            return "gone"
+        finally:
+            impl.close()
+    if fnd.get("id") == FINDING_EINTR_NEVER:
+        impl = Impl(ctx)
+        try:
+            case = dict(fnd["witness"]["case"], fam={})
+            ob = impl.run_wait(case)
+            ans = ctx.driver().batch([dict(strip(case), obs=obs_line(ob))])[0]
+            if ob["out"]["kind"] == "none" and ob["sleeps"] and "neverExistedAtOnce" in (ans["spec"].get("impl_full") or []):
                 return "reproduces"
             return "gone"
         finally:
